@@ -254,8 +254,14 @@ async def _impl_recv(case):
     out = []
     mode = case.get('mode', 1)
 
+    bound = sum(len(c) for c in case['chunks']) // 24 + 2
+
     async def reader():
         while True:
+            if len(out) > bound:
+                # more outcomes than headers fit in the stream: stop instead of spinning
+                out.append(('X', 'Runaway'))
+                return
             try:
                 c, p = await fr.receive_message()
                 out.append(('M', bytes(c), bytes(p)))
@@ -297,6 +303,7 @@ async def _impl_recv(case):
 async def _impl_sess(case):
     framing, session, rawsocket = _mods
     events, delivered = [], []
+    lost = getattr(rawsocket, 'ConnectionLostError', ())   # how the transport ends the reader
     base = framing.BitcoinFramer if case.get('default_class') else _framer_class(case['mp'])
 
     class RecordingFramer(base):
@@ -307,7 +314,7 @@ async def _impl_sess(case):
                 raise
             except Exception as e:
                 kind = _classify(framing, e)
-                if kind[0] == 'E' or type(e).__name__ != 'ConnectionLostError':
+                if kind[0] == 'E' or not isinstance(e, lost):
                     events.append(kind)
                 raise
             events.append(('M', bytes(m[0]), bytes(m[1])))
@@ -340,20 +347,33 @@ async def _impl_sess(case):
 
 
 def _run_batch(cases):
-    async def go():
+    async def go(batch):
         asyncio.get_event_loop().set_exception_handler(lambda loop, ctx: None)
         res = []
-        for case in cases:
+        for case in batch:
             try:
                 if case['k'] == 'sess':
                     res.append(await _impl_sess(case))
                 else:
                     res.append(await _impl_recv(case))
-            except (vloop.Deadlock, vloop.Livelock) as e:
+            except Exception as e:
+                # constructor / plumbing failures are observations of the implementation too
                 res.append({'hang': type(e).__name__} if case['k'] == 'sess'
                            else [('X', type(e).__name__)])
         return res
-    return vloop.run(go())
+    try:
+        return vloop.run(go(cases))
+    except (vloop.Deadlock, vloop.Livelock):
+        pass
+    # something span or starved the loop: find out which case, one loop per case
+    res = []
+    for case in cases:
+        try:
+            res.extend(vloop.run(go([case])))
+        except (vloop.Deadlock, vloop.Livelock) as e:
+            res.append({'hang': type(e).__name__} if case['k'] == 'sess'
+                       else [('X', type(e).__name__)])
+    return res
 
 
 def run_impl(ctx, cases):
@@ -529,7 +549,7 @@ def bitflip_cases(rng, deep):
         for a, b in pairs:
             s = flip(good, [a, b]) + tail
             cases.append(recv_case(magic, mp, mb, chunk_random(rng, s, 30), 'hdr-flip2', mode=rng.randrange(3)))
-        for _ in range(2000 if deep else 150):
+        for _ in range(3000 if deep else 300):
             k = rng.randint(2, 6)
             s = flip(good, rng.sample(range(total), k)) + tail
             cases.append(recv_case(magic, mp, mb, chunk_random(rng, s, 30), 'multi-flip', mode=rng.randrange(3)))
@@ -709,7 +729,10 @@ def trailing_nul_cases(rng, n, framing):
     for i in range(n):
         cmd = b'ab\0' if i == 0 else random_command(rng, trailing_nul=True)
         payload = b'' if i == 0 else bytes(rng.randrange(256) for _ in range(rng.randint(0, 4)))
-        s = fr.frame((cmd, payload))
+        try:
+            s = fr.frame((cmd, payload))
+        except Exception:
+            continue                    # reported by check_frames
         cases.append(recv_case(DEFAULT_MAGIC, 8, 8, chunk_random(rng, s, 30), 'trailing-nul',
                                sent=[(cmd, payload)]))
     return cases
@@ -801,19 +824,19 @@ def run(ctx):
         'command_variants': len(BOUND_CMDS), 'chunking_max_cuts': 3 if deep else 2,
         'cases': len(ex)}
     # (d) round trips through the real frame(), F17 family
-    rt = roundtrip_cases(rng, 8000 if deep else 800, framing)
+    rt = roundtrip_cases(rng, 20000 if deep else 2500, framing)
     rt += trailing_nul_cases(rng, 200 if deep else 30, framing)
     evaluate(ctx, rt, res)
     res['scopes']['roundtrip'] = len(rt)
     # (e) seeded random streams
-    gen = [random_stream_case(rng) for _ in range(60000 if deep else 3500)]
+    gen = [random_stream_case(rng) for _ in range(150000 if deep else 10000)]
     outs = evaluate(ctx, gen, res)
     for c, o in list(zip(gen, outs))[:3]:
         res.sample({'case': model_line(c), 'impl': fmt_out(o)})
     res['scopes']['generated'] = len(gen)
     # (f) MessageSession on the fake transport: a sample of everything above
     pool = ex + gen
-    k = min(len(pool), 12000 if deep else 1200)
+    k = min(len(pool), 30000 if deep else 3000)
     ss = [as_sess(c, rng) for c in rng.sample(pool, k)]
     ss += [as_sess(c, rng) for c in default_limit_cases(ctx.facts)]
     souts = evaluate(ctx, ss, res)
